@@ -412,8 +412,10 @@ WellFormed(text) == REnd(Recognise(NoCtx, RInit, text)).err = ""
 (***************************************************************************)
 (* PART 3 - rendering a scene, step by step, in render()'s order           *)
 (***************************************************************************)
-CONSTANT Inputs          \* the scenes of the scope (MCPromText.tla)
-VARIABLES inp, pc, out, rs
+VARIABLES inp,   \* the scene being rendered
+          pc,    \* position of render(): family index, phase, series index
+          out,   \* text rendered so far
+          rs     \* state of the recogniser after reading `out`
 vars == <<inp, pc, out, rs>>
 
 SceneCtx(sc) ==
@@ -422,7 +424,7 @@ SceneCtx(sc) ==
 
 PcDone == [f |-> 0, ph |-> "done", s |-> 0]
 Start(sc) == IF sc.fams = <<>> THEN PcDone ELSE [f |-> 1, ph |-> "help", s |-> 1]
-Init == inp \in Inputs /\ pc = Start(inp) /\ out = <<>> /\ rs = RInit
+InitWith(scenes) == inp \in scenes /\ pc = Start(inp) /\ out = <<>> /\ rs = RInit
 
 Emit(lines) ==
   LET txt == LinesText(lines) IN
@@ -452,7 +454,7 @@ EndFamily ==       \* output.push('\n')
   /\ pc' = IF pc.f < Len(inp.fams) THEN [f |-> pc.f + 1, ph |-> "help", s |-> 1] ELSE PcDone
   /\ UNCHANGED inp
 Next == WriteHelp \/ SkipHelp \/ WriteType \/ WriteSeries \/ EndFamily
-Spec == Init /\ [][Next]_vars
+\* the initial condition (which scenes) is given by the model module: MCPromText!MCSpec
 
 \* ---------------------------------------------------------------- properties
 AllNames  == {inp.fams[i].name : i \in DOMAIN inp.fams}
@@ -462,12 +464,16 @@ AllLabels == UNION {{inp.fams[ij[1]].series[ij[2]].labels[k] : k \in DOMAIN inp.
                 \cup {inp.cfg.globals[k] : k \in DOMAIN inp.cfg.globals}
 AllDescs  == {inp.fams[i].desc : i \in DOMAIN inp.fams}
 
+\* The four string properties depend on the scene only: evaluated once per scene (in its first state).
+AtStart == pc = Start(inp)
 \* sanitised names are in the grammar (and keep their length: never empty for a non-empty input)
-NameGrammar  == \A n \in AllNames : n # <<>> => InNameGrammar(SanitizeMetricName(n)) /\ Len(SanitizeMetricName(n)) = Len(n)
-LabelGrammar == \A kv \in AllLabels : kv[1] # <<>> => InLabelGrammar(SanitizeLabelKey(kv[1])) /\ Len(SanitizeLabelKey(kv[1])) = Len(kv[1])
+NameGrammar  == AtStart => \A n \in AllNames : n # <<>> =>
+                   InNameGrammar(SanitizeMetricName(n)) /\ Len(SanitizeMetricName(n)) = Len(n)
+LabelGrammar == AtStart => \A kv \in AllLabels : kv[1] # <<>> =>
+                   InLabelGrammar(SanitizeLabelKey(kv[1])) /\ Len(SanitizeLabelKey(kv[1])) = Len(kv[1])
 \* escaped text cannot end a value early, start a new line or leave an escape open
-ValueEscaped == \A kv \in AllLabels : EscapedOK(SanitizeLabelValue(kv[2]), TRUE)
-DescEscaped  == \A d \in AllDescs : EscapedOK(SanitizeDescription(d), FALSE)
+ValueEscaped == AtStart => \A kv \in AllLabels : EscapedOK(SanitizeLabelValue(kv[2]), TRUE)
+DescEscaped  == AtStart => \A d \in AllDescs : EscapedOK(SanitizeDescription(d), FALSE)
 
 \* every prefix of the rendered text is accepted so far, the complete text is accepted
 NoSyntaxError == rs.err = ""
@@ -477,7 +483,6 @@ Complete      == pc.ph = "done" => REnd(rs).err = ""
 NameRule          == rs.cf08 = FALSE
 NameRuleOrCF08    == rs.cf08 => ~UnitFix
 \* user data forged nothing: the recognised structure is exactly the structure rendered
-ExpLines == SceneLines(inp)
 IsSampleLine(ln) == ln # <<>> /\ Last(ln) = VALMARK
 ExpLabelCount ==
   LET n(i, j) == Len(MergeLabels(inp.cfg.globals, inp.fams[i].series[j].labels))
@@ -489,10 +494,11 @@ ExpLabelCount ==
   IN FoldLeft(S, 0, SetToSeq(SeriesIdx))
 NoForgery ==
   pc.ph = "done" =>
+    LET lines == SceneLines(inp) IN     \* (LET: evaluated once)
     /\ rs.nHelp = Cardinality({i \in DOMAIN inp.fams : inp.fams[i].described})
     /\ rs.nType = Len(inp.fams)
     /\ rs.nBlank = Len(inp.fams)
-    /\ rs.nSample = Cardinality({i \in DOMAIN ExpLines : IsSampleLine(ExpLines[i])})
+    /\ rs.nSample = Cardinality({i \in DOMAIN lines : IsSampleLine(lines[i])})
     /\ rs.nLabel = ExpLabelCount
     /\ Families(rs) = {FamName(SanitizeMetricName(inp.fams[i].name), EffUnit(inp.fams[i], inp.cfg)) : i \in DOMAIN inp.fams}
 =============================================================================
